@@ -36,7 +36,7 @@ SHAPES = [("cat", "cat")] * 3 + [("cat", "mr"), ("mr", "cat"), ("mr", "mr"),
 @st.composite
 def case_st(draw):
     sc = draw(scen.scenario_st(SHAPES, measure="maybe", max_n=30, stats=["mean"], skew=False,
-                               weight_kinds=("none", "int", "dyadic")))
+                               weight_kinds=("none", "int", "dyadic", "tenths")))
     sv, q = sc["survey"], sc["query"]
     rvar = sv["vars"][q["dims"][-2]["var"]]
     cvar = sv["vars"][q["dims"][-1]["var"]]
